@@ -242,7 +242,12 @@ impl ErrorRenderer for PrettyColorRenderer {
                 DiffLine::UnexpectedLines { lines } => {
                     lines.iter().for_each(|(line_index, line)| {
                         let eol = (line.as_ref() as &[u8]).ends_in_newline();
-                        let line = if !eol {
+                        // an escaped rendering disregards the newline, only a
+                        // printable line is marked as not ending in one
+                        let printable = !outcome
+                            .escaping
+                            .has_unprintable((line.as_ref() as &[u8]).trim_newlines());
+                        let line = if !eol && printable {
                             let mut line = line.clone();
                             line.extend(b" (no-eol)");
                             line
